@@ -110,6 +110,16 @@ class Lab:
         self.nws = 0
         self.goa_runs = 0
         self.goa_secs = 0.0
+        self.abstract = {}        # name -> abstract design JSON (generated through cmd/genhost instead of the goa command line)
+        self.genhost = None
+        self.genhost_runs = 0
+
+    def add_abstract(self, name, design):
+        """Register a design given as harness/design JSON: `gen` for it runs cmd/genhost (DSL calls -> eval.RunDSL ->
+        generator.Generate in a fresh process) built from the repo under test."""
+        if self.genhost is None:
+            self.genhost = self.ctx.gobuild("cmd/genhost")
+        self.abstract[name] = design
 
     # ------------------------------------------------------------ workspaces
     def new_ws(self, designs, name=None, depth=0):
@@ -120,7 +130,11 @@ class Lab:
         open(os.path.join(d, "go.mod"), "w").write(self.gomod)
         open(os.path.join(d, "go.sum"), "w").write(self.gosum)
         for n in designs:
-            shutil.copytree(os.path.join(DESIGNS_DIR, n), os.path.join(d, "designs", n))
+            if n in self.abstract:
+                os.makedirs(os.path.join(d, "designs", n))
+                json.dump(self.abstract[n], open(os.path.join(d, "designs", n, "design.json"), "w"), sort_keys=True)
+            else:
+                shutil.copytree(os.path.join(DESIGNS_DIR, n), os.path.join(d, "designs", n))
         return d
 
     def warm(self, ws):
@@ -132,6 +146,19 @@ class Lab:
         env = dict(self.ctx.goenv())
         env.update(ENVS[envi % len(ENVS)])
         t = time.time()
+        if design in self.abstract:
+            if cmd != "gen":
+                raise core.Infra("abstract designs are generated with genhost: gen only")
+            try:
+                p = subprocess.run([self.genhost, "-design", "designs/%s/design.json" % design, "-out", ".", "-cmds", "gen"], cwd=ws, env=env,
+                                   stdout=subprocess.PIPE, stderr=subprocess.PIPE, text=True, timeout=300, errors="replace")
+            except subprocess.TimeoutExpired:
+                raise core.Infra("genhost %s timed out in %s" % (design, ws))
+            self.genhost_runs += 1
+            evs = [json.loads(l) for l in p.stdout.splitlines() if l.startswith("{")]
+            ok = p.returncode == 0 and evs and evs[-1].get("ev") == "gen" and evs[-1].get("outcome") == "ok"
+            detail = "" if ok else (json.dumps(evs[-1])[:1500] if evs else p.stderr[-1500:])
+            return (0 if ok else 1), p.stdout, detail
         try:
             p = subprocess.run([self.goa, cmd, "%s/designs/%s" % (MODULE, design)] + list(extra_args), cwd=ws, env=env,
                                stdout=subprocess.PIPE, stderr=subprocess.PIPE, text=True, timeout=300, errors="replace")
@@ -166,6 +193,11 @@ class Lab:
         if rc != 0:
             raise core.Infra("reference `goa gen %s` failed:\n%s\n%s" % (design, out[-1500:], err[-3000:]))
         s1 = self.snapshot(ws)
+        if design in self.abstract:
+            gen = {p: s1[p][0] for p in s1 if p not in s0}
+            if not gen or [p for p in gen if not (p.startswith("gen/") and p.count("/") >= 2)]:
+                raise core.Infra("abstract design %s: unexpected reference output" % design)
+            return {"design": design, "gen": gen, "ex": {}, "init": {p: s0[p][0] for p in s0}, "ws": ws}
         rc, out, err = self.run_goa(ws, "example", design)
         if rc != 0:
             raise core.Infra("reference `goa example %s` failed:\n%s\n%s" % (design, out[-1500:], err[-3000:]))
@@ -190,7 +222,10 @@ class Lab:
         with cf.ThreadPoolExecutor(max_workers=8) as ex:
             for r in ex.map(self.reference, designs):
                 refs[r["design"]] = r
-        self.warm(refs[designs[0]]["ws"])
+        for d in designs:
+            if d not in self.abstract:
+                self.warm(refs[d]["ws"])
+                break
         return refs
 
     # ------------------------------------------------------------------ cases
@@ -412,3 +447,39 @@ def random_history(rng, refs, pair, n):
             present.add(p)
             ops.append({"k": "stray", "p": p})
     return ops, strays
+
+
+# ---------------------------------------------------------------------- designs assembled from TLC's transport shapes
+def transport_designs(req_vectors, res_vectors, rng, ndesigns, nmethods):
+    """Abstract designs (harness/design JSON, interpreted by cmd/genhost) whose methods carry three elements of every
+    non-body location at once: payload attributes from the request family of HTTPTransport.tla (3 headers, 3 cookies,
+    3 query parameters, 1 path parameter, 2 body attributes), result attributes from the response family (3 headers,
+    3 cookies, 2 body attributes).  Shapes are TLC's; only their grouping into methods is done here."""
+    from . import httpgen as hg
+
+    def uniq(vectors, key):
+        seen, out = set(), {}
+        for v in vectors:
+            a = v[key][0]
+            k = core.canon(a)
+            if k not in seen:
+                seen.add(k)
+                out.setdefault(a["loc"], []).append(a)
+        return out
+    pa, ra = uniq(req_vectors, "pa"), uniq(res_vectors, "ra")
+    for d in (pa, ra):
+        for loc in d:
+            d[loc].sort(key=core.canon)
+
+    def pick(pool, loc, n):
+        c = [a for a in pool.get(loc, []) if not (a["nest"] == "alias" and a["mode"] == "default")]   # known C01 finding, irrelevant here
+        return [dict(a) for a in rng.sample(c, min(n, len(c)))]
+    designs = []
+    for di in range(ndesigns):
+        types, methods = [], []
+        for mi in range(1, nmethods + 1):
+            shape = {"pa": pick(pa, "header", 3) + pick(pa, "cookie", 3) + pick(pa, "query", 3) + pick(pa, "path", 1) + pick(pa, "body", 2),
+                     "ra": pick(ra, "header", 3) + pick(ra, "cookie", 3) + pick(ra, "body", 2), "tagged": False}
+            methods.append(hg.method_design(mi, shape, types))
+        designs.append({"api": {"name": "t%d" % (di + 1), "servers": 1}, "types": types, "services": [{"name": "s1", "methods": methods}]})
+    return designs
